@@ -26,7 +26,11 @@ CONFIG = {
     'level_text': ('For structures of the small scope and seeded random '
                    'ones, and formulas/pairs from the depth-<=1 enumeration '
                    'and random deeper ones, every relation instance executed '
-                   'must hold between the sets the real checkers return.'),
+                   'must hold between the sets the real checkers return.'
+                   ' Also: text with operator synonyms and irregular blanks,'
+                   ' n-ary operators as text/object/nested binary, the same path'
+                   ' formula under A and E, depth-2 LTL formulas through raw-leaf'
+                   ' object / wrapped object / text / CTL* entry.'),
     'level_note': ('Trusted base: only the relations themselves (standard '
                    'semantic identities) and set comparison. Raw foreign-'
                    'class objects (e.g. a CTL object given to LTL.modelcheck) '
